@@ -596,3 +596,51 @@ pub fn packetise_fdt(xml: &[u8], tsi: u64, instance_id: u32, e: usize, sct: Opti
     }
     out
 }
+
+/// RFC 6330 s4.4.1.2 sub-blocking: byte sizes of the N sub-symbols that make up one symbol of T bytes
+/// ((TL, TS, NL, NS) = Partition[T/Al, N]; the first NL sub-symbols have TL*Al bytes, the others TS*Al).
+pub fn rq_subsymbol_sizes(t: usize, n: usize, al: usize) -> Vec<usize> {
+    let n = n.max(1);
+    let al = al.max(1);
+    let i = t / al;
+    let il = (i + n - 1) / n;
+    let is = i / n;
+    let jl = i - is * n;
+    (0..n).map(|j| if j < jl { il * al } else { is * al }).collect()
+}
+
+/// The K symbols of a source block laid out with sub-blocking: the block (K*T bytes, zero padded) is cut
+/// into N contiguous sub-blocks of K sub-symbols each; symbol m is the concatenation of the m-th sub-symbol
+/// of every sub-block.
+pub fn rq_interleave(block: &[u8], k: usize, sizes: &[usize]) -> Vec<Vec<u8>> {
+    let t: usize = sizes.iter().sum();
+    let mut padded = block.to_vec();
+    padded.resize(k * t, 0);
+    let mut out = vec![Vec::with_capacity(t); k];
+    let mut off = 0;
+    for s in sizes {
+        for (m, sym) in out.iter_mut().enumerate() {
+            sym.extend_from_slice(&padded[off + m * s..off + (m + 1) * s]);
+        }
+        off += k * s;
+    }
+    out
+}
+
+/// Inverse of `rq_interleave`: the K*T bytes of the block from its K symbols.
+pub fn rq_deinterleave(symbols: &[Vec<u8>], sizes: &[usize]) -> Vec<u8> {
+    let k = symbols.len();
+    let t: usize = sizes.iter().sum();
+    let mut block = vec![0u8; k * t];
+    let mut off = 0;
+    let mut in_sym = 0;
+    for s in sizes {
+        for (m, sym) in symbols.iter().enumerate() {
+            let piece = sym.get(in_sym..in_sym + s).map(|x| x.to_vec()).unwrap_or_else(|| vec![0; *s]);
+            block[off + m * s..off + (m + 1) * s].copy_from_slice(&piece);
+        }
+        off += k * s;
+        in_sym += s;
+    }
+    block
+}
